@@ -107,6 +107,11 @@ def cli_rename_roots(R, g, fails, stats):
                 expect = dict(expect)
                 expect[nd + "/" + search + "_inner.txt"] = ("file", replace + "_inner.txt")
                 below_hit = [nd]
+        if below_hit:
+            # a term-named symlink whose target is the directory that will also be given as a search root: an entry of its own
+            tree = tree + [{"p": search + "_alias", "k": "l", "t": below_hit[0]}]
+            expect = dict(expect)
+            expect[search + "_alias"] = ("file", replace + "_alias")
         kind = ["nested_below_renamed", "default", "repeated", "nested_below_renamed"][i % 4]
         if kind == "nested_below_renamed" and not below_hit:
             kind = "default"
